@@ -203,7 +203,8 @@ PROPS["C15"] = {
 READER_FNS = ["StringRef::read", "ColumnType::read_value", "Timestamp::read_from", "PropertyValue::read",
               "StringPoolBuilder::read_from_pool", "StringPoolBuilder::build_from_data",
               "PropertyValue::minimum_version", "PropertySet::read", "lemma_data_off_nonneg",
-              "lemma_ref_join", "lemma_unoffset16", "lemma_unoffset32", "lemma_zero32", "lemma_header_bits"]
+              "lemma_ref_join", "lemma_unoffset16", "lemma_unoffset32", "lemma_zero32", "lemma_header_bits",
+              "lemma_parse_live_nonempty", "lemma_long_positive"]
 PROPS["C02"]["verus"]["readers"] = READER_FNS
 PROPS["C09"]["verus"]["readers"] = READER_FNS
 PROPS["C11"]["verus"]["streams"] = ["Streams::next"]
